@@ -135,8 +135,21 @@ func decodeIdem(kind uint8, data []byte) (status, diff string) {
 	return "unmarshal-error", ""
 }
 
-// honestWire builds the object a round-trip case describes and returns its wire kind and marshalled bytes.
+// honestWire returns the wire kind and marshalled bytes of the object a round-trip case describes.
 func honestWire(c Case) (uint8, []byte) {
+	k, m := honestMsg(c)
+	if m == nil {
+		return 0, nil
+	}
+	b, err := proto.Marshal(m)
+	if err != nil {
+		panic(err)
+	}
+	return k, b
+}
+
+// honestMsg builds the object a round-trip case describes and returns its wire kind and protobuf message.
+func honestMsg(c Case) (uint8, proto.Message) {
 	w := getWorld(c.Scheme, c.N, false)
 	sender := w.ms[mod(c.Sender, w.n)]
 	var m proto.Message
@@ -186,11 +199,7 @@ func honestWire(c Case) (uint8, []byte) {
 	default:
 		return 0, nil
 	}
-	b, err := proto.Marshal(m)
-	if err != nil {
-		panic(err)
-	}
-	return uint8(k), b
+	return uint8(k), m
 }
 
 // DecodeCase carries the bytes themselves (signatures are randomised, so bytes cannot be rebuilt from a description).
@@ -245,21 +254,34 @@ func genDecode(rt *rapid.T) DecodeCase {
 	if c.Block != nil && c.Block.Batch.Bulk > 100 {
 		c.Block.Batch.Bulk = 100
 	}
-	k, b := honestWire(c)
-	if rapid.Bool().Draw(rt, "otherkind") { // the same bytes read as another message type
+	k, msg := honestMsg(c)
+	if msg == nil {
+		return DecodeCase{Kind: k, Edited: -1}
+	}
+	np := rapid.IntRange(0, 3).Draw(rt, "pbedits")
+	pes := make([]pbEdit, np)
+	for i := range pes {
+		pes[i] = pbEdit{Pick: rapid.IntRange(0, 1<<16).Draw(rt, "pick"), Op: rapid.IntRange(0, 5).Draw(rt, "pbop"), Val: rapid.Byte().Draw(rt, "pbval")}
+	}
+	mutatePB(msg, pes)
+	b, err := proto.Marshal(msg)
+	if err != nil {
+		panic(err)
+	}
+	if rapid.IntRange(0, 4).Draw(rt, "otherkind") == 0 { // the same bytes read as another message type
 		k = rapid.Byte().Draw(rt, "kind")
 	}
-	n := rapid.IntRange(0, 4).Draw(rt, "edits")
+	n := rapid.SampledFrom([]int{0, 0, 0, 1, 1, 2, 3}).Draw(rt, "edits")
 	es := make([]edit, n)
 	for i := range es {
 		es[i] = edit{
-			Op:  rapid.IntRange(0, 5).Draw(rt, "op"),
+			Op:  rapid.SampledFrom([]int{0, 1, 1, 1, 1, 2, 3, 4, 5}).Draw(rt, "op"),
 			Pos: rapid.IntRange(0, 1<<20).Draw(rt, "pos"),
 			Val: rapid.Byte().Draw(rt, "val"),
 			Len: rapid.IntRange(0, 15).Draw(rt, "len"),
 		}
 	}
-	return DecodeCase{Kind: k, Data: applyEdits(b, es), Edited: n}
+	return DecodeCase{Kind: k, Data: applyEdits(b, es), Edited: n + np}
 }
 
 func decodeProp(c DecodeCase) common.Result {
